@@ -45,6 +45,7 @@ structure AppCfg where
   agentCustom : Int
   token    : Bool
   highSec  : Bool
+  docker   : String := ""   -- the container id the agent reports (AppInfo.DockerId); part of the connect payload's utilization
 deriving Repr, DecidableEq, Inhabited
 
 /-- what a successful connect leaves in `App.connectReply` -/
